@@ -5,7 +5,7 @@ from props.m1common import g, sp, sx, rng_for, is_err, compare_result, shrink_tr
 PID = "C19"
 RUNNER = "impl_m1.py"
 N = {"quick": 2100, "thorough": 70000}
-LEVEL_RULE = ("(12 % of the tie cases are UNRESTRICTED ties on sequences of non-empty sequences - whole containers are merged and the survivor rescaled to the run total; implementation-side oracle only, the model has the leaf-restricted form) seven operations in equal shares on random sequences / simultaneities with 0-6 children (leaves and nested containers), "
+LEVEL_RULE = ("(12 % of the tie cases are UNRESTRICTED ties on sequences of non-empty sequences - whole containers are merged and the survivor rescaled to the run total; model Model/TieAll.v, theorems Proofs/TieAllP.v; leaf lengths compared within one tick per merge step because of half-tick rounding ties) seven operations in equal shares on random sequences / simultaneities with 0-6 children (leaves and nested containers), "
               "tags of the children drawn from {none, 1, 2, 3} with repeats and missing ones, tempi from three values: read / replace / "
               "delete by tag (query tags 1-3, about 30 % absent -> KeyError), slices i0:i1 with 0 <= i0, i1 <= len + 2 (also i0 > i1), "
               "sequence + container (equal tempo), remove_by with duration / label-class / leaf-only conditions, tie_by with key = "
@@ -16,7 +16,7 @@ LEVEL_RULE = ("(12 % of the tie cases are UNRESTRICTED ties on sequences of non-
               "one child; tie_by merges at least one run")
 ASSUMPTIONS = ASSUMPTIONS_M1
 TRUSTED = TRUSTED_M1
-KINDS = ["get_tag", "set_tag", "del_tag", "slice", "add", "remove_by", "tie_by"]
+KINDS = ["get_tag", "set_tag", "del_tag", "slice", "add", "remove_by", "tie_by", "listops"]
 
 
 # ------------------------------------------------------------------------------------------------ generation
@@ -48,8 +48,26 @@ def tie_tree(rng, G, depth, sim):
 
 def gen(seed, index):
     rng = rng_for(PID, seed, index)
-    k = KINDS[index % 7] if rng.random() < 0.9 else rng.choice(KINDS)
-    G = g.G(rng, tags=True, tempi=(k != "add"))
+    k = KINDS[index % 8] if rng.random() < 0.9 else rng.choice(KINDS)
+    G = g.G(rng, tags=True, tempi=True)
+    if k == "listops":
+        # integer get / set / delete (negative and out-of-range indices), slices with open / negative bounds, repetition,
+        # and the generic sum (simultaneity receiver; sequences have their own sum = kind "add")
+        t = container(rng, G)
+        n = len(t) - 3
+        kk = rng.choice(["geti", "seti", "deli", "pyslice", "pyslice", "mul", "mul", "gadd"])
+        if kk in ("geti", "seti", "deli"):
+            i = rng.choice([0, -1, n - 1, -n, n, -n - 1, rng.randint(-n - 2, n + 2)])
+            return ["op", t, [kk, i] + ([G.tree(depth=rng.choice([0, 1]))] if kk == "seti" else [])]
+        if kk == "pyslice":
+            def bound():
+                return rng.choice(["none", 0, 1, -1, -2, n, n + 3, -n - 3, rng.randint(-n - 1, n + 1)])
+            return ["op", t, ["pyslice", bound(), bound()]]
+        if kk == "mul":
+            return ["op", t, ["mul", rng.choice([0, 1, 2, 2, 3, -1])]]
+        t[0] = "P"
+        o = container(rng, G, kind=rng.choice(["P", "P", "S"]))
+        return ["op", t, ["gadd", o]]
     if k in ("get_tag", "set_tag", "del_tag"):
         t = container(rng, G)
         present = sorted({int(c[1]) for c in t[3:] if c[0] != "L" and int(c[1]) != 0})
@@ -67,6 +85,7 @@ def gen(seed, index):
     if k == "add":
         t = container(rng, G, kind="S")
         o = container(rng, G, kind=rng.choice(["S", "S", "S", "S", "P"]))
+        o[2] = t[2]       # equal constant tempi: the sum keeps that tempo (different tempi are joined on the time axis: C12)
         return ["op", t, ["add", o]]
     if k == "remove_by":
         t = container(rng, G)
@@ -82,7 +101,7 @@ def gen(seed, index):
         return ["op", t, ["remove_by", cond]]
     if rng.random() < 0.12:
         # unrestricted tie on a sequence of non-empty sequences: whole containers are merged, the survivor is rescaled
-        # to the run's total (implementation-side oracle only: the model's tie_by is the leaf-restricted form)
+        # to the run's total (Model/TieAll.v)
         G2 = g.G(rng, unit=rng.choice([2500000000, 10000000000, 3333333333, 5000000000]), zero_p=0.1, max_depth=2, allow_sim=False)
         kids = []
         for _ in range(rng.randint(2, 4)):
@@ -93,9 +112,16 @@ def gen(seed, index):
             # one leaf object under two sub-containers of ONE child (across children the merge steps would alias)
             from props import C02 as _c2
             _c2.share_leaves(rng, rng.choice(kids))
+        degenerate = rng.random() < 0.12
         for sub in kids:
             if g.dur(sub) == 0:
                 sub.append(["L", G2.unit, G2.label()])      # every child of the run has a positive length
+        if degenerate:
+            # finding F11: the survivor has duration 0 (nested zero-length leaves) or no leaf at all
+            surv = rng.choice([["S", 0, 0, ["S", 0, 0, ["L", 0, G2.label()], ["L", 0, G2.label()]]], ["S", 0, 0, ["S", 0, 0, ["S", 0, 0]]]])
+            first = rng.choice([0, 1])
+            t = ["S", 0, 0] + ([surv] + kids if first else kids + [surv])
+            return ["op", t, ["tie_all", ["always"], first]]
         return ["op", t, ["tie_all", ["always"], rng.choice([0, 1])]]
     sim = rng.random() < 0.12
     t = tie_tree(rng, G, rng.choice([0, 1, 1, 2, 3]), sim)
@@ -104,14 +130,19 @@ def gen(seed, index):
     return ["op", t, ["tie_by", ["samekey", rng.choice([1, 2, 2, 3])], rng.choice([0, 1])]]
 
 
-def model_case(case):
-    if case[0] == "op" and case[2][0] == "tie_all":
-        return ["dur", case[1]]      # outside the model (see LEVEL_RULE): the model only reports the duration
-    return case
-
-
 def compare(case, mo, io):
     if case[0] == "op" and case[2][0] == "tie_all":
+        # Model/TieAll.v rounds d * new / old half-to-even on the exact rational; the code evaluates new * (d / old) in
+        # binary64, so an exact half-tick tie may fall the other way: leaf lengths are compared within one tick per leaf of the input
+        if is_err(mo) or is_err(io):
+            return None if mo[:2] == io[:2] else f"outcome differs: model {sx.show(mo[:2])} impl {sx.show(io[:2])}"
+        a, b = sp.norm(mo[1]), sp.norm(io[1])
+        if sp.shape(a) != sp.shape(b) or len(sp.flat(a)) != len(sp.flat(b)):
+            return f"unrestricted tie: structure differs: model {sx.show(a)[:160]} impl {sx.show(b)[:160]}"
+        tol = max(1, len(sp.flat(sp.norm(case[1]))))     # every leaf of an intermediate survivor may sit on a tie
+        for (s1, e1, l1, _), (s2, e2, l2, _) in zip(sp.flat(a), sp.flat(b)):
+            if l1 != l2 or abs((e1 - s1) - (e2 - s2)) > tol:
+                return f"unrestricted tie: leaf {l1} lasts {e1 - s1} ticks in the model, {e2 - s2} in the implementation"
         return None
     return compare_result(mo, io)
 
@@ -128,6 +159,9 @@ def oracle_tie_all(case, io):
         return f"tie_by with an always-true condition left {len(kids)} children, one run has one survivor"
     src = sp.kids(t)[0] if first else sp.kids(t)[-1]
     surv = kids[0]
+    if sp.dur(src) == 0 and sp.dur(r) != D:
+        return (f"[F11] the survivor of the run has duration 0 ({'no leaf at all' if not sp.flat(src) else 'zero-length leaves only'}): "
+                f"the container's duration changed from {D} to {sp.dur(r)}")
     if sp.shape(surv) != sp.shape(src):
         return "the surviving child is not the first / last child of the run (structure differs)"
     n = max(1, len(sp.flat(t)))      # every merge step rescales the current survivor and rounds each of its leaves
@@ -230,6 +264,36 @@ def oracle(case, io, mo):
             return None if io[:2] == ["err", "KeyError"] else f"absent tag not rejected with KeyError: {sx.show(io[:2])[:100]}"
         mid = (sp.norm(op[2]),) if k == "set_tag" else ()
         return expect_tree(io, t[:3] + ks[:i] + mid + ks[i + 1:], f"{k} on the first child carrying the tag")
+    if k in ("geti", "seti", "deli"):
+        i, n = int(op[1]), len(ks)
+        if not -n <= i < n:
+            return None if io[:2] == ["err", "IndexError"] else f"index {i} of {n} children not rejected with IndexError: {sx.show(io[:2])[:100]}"
+        j = i % n
+        if k == "geti":
+            m = expect_tree(io, ks[j], f"e[{i}] is not the child at that position")
+            return m or (None if extra(io, "recv") == t else "reading a child modified the receiver")
+        mid = (sp.norm(op[2]),) if k == "seti" else ()
+        return expect_tree(io, t[:3] + ks[:j] + mid + ks[j + 1:], f"{k} at index {i}")
+    if k == "pyslice":
+        a, b = (None if x == "none" else int(x) for x in op[1:3])
+        m = expect_tree(io, t[:3] + tuple(list(ks)[a:b]), f"slice {a}:{b} (same kind, tag and tempo, the children of that list slice)")
+        return m or (None if extra(io, "recv") == t else "slicing modified the receiver")
+    if k == "mul":
+        n = int(op[1])
+        m = expect_tree(io, t[:3] + tuple(list(ks) * n), f"repetition * {n} (same kind, tag and tempo, the children repeated)")
+        if m:
+            return m
+        if any(isinstance(x, list) and x and x[0].startswith("repetition-does-not") for x in io[2:]):
+            return "the repetition does not repeat the children themselves (list semantics: references)"
+        return None if extra(io, "recv") == t else "the repetition modified the receiver"
+    if k == "gadd":
+        o = sp.norm(op[1])
+        m = expect_tree(io, t[:3] + ks + sp.kids(o), "sum of a simultaneity (same kind, tag and tempo, children of both)")
+        if m:
+            return m
+        if extra(io, "recv") != t:
+            return "the sum modified the receiver"
+        return None if extra(io, "other") == o else "the sum modified the right operand"
     if k == "slice":
         i0, i1 = int(op[1]), int(op[2])
         m = expect_tree(io, t[:3] + tuple(list(ks)[i0:i1]), f"slice {i0}:{i1}")
@@ -334,4 +398,6 @@ def neighbours(case):
 
 
 def known(f, case, msg, io):
+    if f.get("id") == "F11":
+        return (msg or "").startswith("[F11]")
     return f.get("id") == "F4" and (msg or "").startswith("[F4]")
